@@ -126,7 +126,13 @@ func runCase(n int, line string) string {
 	default:
 		pre = "unset LISTEN_PID;"
 	}
-	cmd := exec.Command("sh", "-c", pre+` exec "$0" "$@"`, os.Args[0], "child", "unix:"+fallback)
+	bindAddr := "unix:" + fallback
+	tcpAddr := len(f) > 4 && f[4] == "tcp"
+	if tcpAddr && fspath == "" {
+		// the address names another protocol than the inherited socket's: it is not to be inspected when activation succeeds
+		bindAddr = "tcp:127.0.0.1:0"
+	}
+	cmd := exec.Command("sh", "-c", pre+` exec "$0" "$@"`, os.Args[0], "child", bindAddr)
 	env := []string{"PATH=" + os.Getenv("PATH")}
 	if v, set := unesc(fds); set {
 		env = append(env, "LISTEN_FDS="+v)
@@ -161,7 +167,7 @@ func runCase(n int, line string) string {
 			return "fallback"
 		}
 	}
-	if addr == fallback {
+	if addr == fallback || (strings.HasPrefix(bindAddr, "tcp:") && strings.HasPrefix(addr, "127.0.0.1:")) {
 		return "fallback"
 	}
 	for i, a := range addrs {
